@@ -1023,7 +1023,9 @@ def decide(pid, cfg, tier, seed, units, work, ev):
                     if d == 'derive_help' and fs != mirror.ALL_FEATURES:
                         continue
                     res = witness.run_driver(binary, d, seed, 20000)
-                    res.update({'features': list(fs), 'seed': seed or 1, 'bound': '20000 random sessions / exhaustive small inputs (see witness/src)'})
+                    res.update({'features': list(fs), 'seed': seed or 1, 'bound': {'cli': '80000 random sessions of up to 30 key units / API calls', 'derive_help': 'one fixed declaration, every command path x option placement',
+                                          'derive_fail': 'one fixed declaration, 7 help lines x every failure position', 'derive_hidden': 'one fixed group declaration, 8 typed prefixes',
+                                          'derive_parse': 'one fixed declaration, 32 lines'}.get(d.split(':')[0], '20000 random cases / exhaustive small inputs (see witness/src)')})
                     rows.append(res)
                     if res.get('found'):
                         break
